@@ -165,11 +165,6 @@ type Leak struct {
 func scan(secrets []Secret, msgs []string, chlog string) *Leak {
 	for _, s := range secrets {
 		for _, f := range s.forms {
-			for _, m := range msgs {
-				if strings.Contains(m, f) {
-					return &Leak{Secret: s.Name, Where: "log", Form: f, Text: m}
-				}
-			}
 			if i := strings.Index(chlog, f); i >= 0 {
 				lo, hi := i-40, i+len(f)+40
 				if lo < 0 {
@@ -179,6 +174,15 @@ func scan(secrets []Secret, msgs []string, chlog string) *Leak {
 					hi = len(chlog)
 				}
 				return &Leak{Secret: s.Name, Where: "channel-log", Form: f, Text: chlog[lo:hi]}
+			}
+		}
+	}
+	for _, s := range secrets {
+		for _, f := range s.forms {
+			for _, m := range msgs {
+				if strings.Contains(m, f) {
+					return &Leak{Secret: s.Name, Where: "log", Form: f, Text: m}
+				}
 			}
 		}
 	}
@@ -399,7 +403,7 @@ func errClass(err error) string {
 
 func runLogin(c *Case, m *Monitor) session {
 	d := *c.Login
-	res, info := c10.RunDialogue(d, &c10.Hooks{ExtraOpts: m.options(c.Level)})
+	res, info := c10.RunDialogue(d, &c10.Hooks{ExtraOpts: m.options(c.Level), Drain: true})
 	s := session{kind: "login-" + d.Auth + "-" + d.Driver, outcome: info.Class, c10Verdict: res.Verdict, c10Key: res.Key}
 	for _, rec := range info.DeviceLog {
 		if rec.Line != "" && (rec.Line == d.User || rec.Line == d.Password || rec.Line == d.Passphrase) {
@@ -813,6 +817,25 @@ func init() {
 			cs := make([]mon.Case, 0, n)
 			for i := 0; i < n; i++ {
 				cs = append(cs, mon.MkCase(fmt.Sprintf("c11/%05d", i), genCase(r, i)))
+			}
+			// the notice+prompt and long-banner login dialogues of C10's sweep, with hostile secrets (the
+			// shell after login echoes what is typed at its prompt, as shells do)
+			k := 0
+			for _, d := range c10.Sweep(r) {
+				if !c10.HasNotice(&d) && c10.LongestBanner(&d) <= d.PSD {
+					continue
+				}
+				c := genCase(r, 0)
+				c.Kind, c.Esc, c.Plat, c.Sys = "login", nil, nil, nil
+				if c.Password == "" {
+					c.Password = genSecret(r, c.Family)
+				}
+				c.Passphrase, c.Secondary = "", ""
+				dd := d
+				dd.Password = c.Password
+				c.Login = &dd
+				cs = append(cs, mon.MkCase(fmt.Sprintf("c11/sweep/%03d", k), c))
+				k++
 			}
 			cs = append(cs, genFaultCases(r, tier)...)
 			return cs
